@@ -7,7 +7,7 @@ wt=/var/tmp/trypatch.$$
 git -C /repo worktree add -q --detach "$wt" HEAD || exit 2
 trap 'git -C /repo worktree remove --force "$wt" 2>/dev/null' EXIT
 git -C "$wt" apply "$patch" || { echo "try_patch: patch does not apply"; exit 3; }
-cd /verif && VERIF_REPO="$wt" ./check "$prop" "$tier"
+cd "$(dirname "$0")/.." && VERIF_REPO="$wt" ./check "$prop" "$tier"
 rc=$?
 echo "try_patch: exit=$rc"
 exit $rc
